@@ -10,9 +10,9 @@ Local Open Scope N_scope.
 (* ------------------------------------------------------------------ a request that is not admissible *)
 
 Lemma set_finalised_refused g st f h round setid : inv g st f -> s_known (f_set f) h = false ->
-  exists c, set_finalised st h round setid = (st, Err c).
+  exists c, set_finalised_late st h round setid = (st, Err c).
 Proof.
-  intros I Hk. unfold set_finalised, set_finalised_with.
+  intros I Hk. unfold set_finalised_late, set_finalised_late_with.
   destruct (has_header st h); [|eexists; reflexivity]. cbn [negb].
   unfold handle_finalised. rewrite (i_last _ _ _ I).
   destruct (N.eqb_spec h (s_root (f_set f))) as [->|Hne].
@@ -26,7 +26,7 @@ Qed.
 
 Lemma set_finalised_same_head g st f h round setid : inv g st f -> snd (bs_highest st) <= setid ->
   h = s_root (f_set f) ->
-  exists st', set_finalised st h round setid = (st', Ok tt) /\ inv g st' (f_fin f h)
+  exists st', set_finalised_late st h round setid = (st', Ok tt) /\ inv g st' (f_fin f h)
               /\ bs_tries st' = bs_tries st /\ bs_unfin st' = bs_unfin st /\ bs_hdr st' = bs_hdr st.
 Proof.
   intros I Hsid Eh. destruct (i_head _ _ _ I) as (i0 & Hh0 & Hf0). rewrite <- Eh in Hh0, Hf0.
@@ -36,7 +36,7 @@ Proof.
   { destruct (lookup h (bs_unfin st)) eqn:X; auto. exfalso.
     apply (swf_root_not_block (f_set f) (sim_swf _ _ (i_sim _ _ _ I))).
     apply (i_unfin _ _ _ I). rewrite <- Eh. congruence. }
-  unfold set_finalised, set_finalised_with.
+  unfold set_finalised_late, set_finalised_late_with.
   assert (Hhas : has_header st h = true) by (unfold has_header; rewrite Hlu, Hh0; reflexivity).
   rewrite Hhas. cbn [negb]. unfold handle_finalised. rewrite (i_last _ _ _ I), <- Eh.
   rewrite N.eqb_refl. destruct (N.ltb_spec setid (snd (bs_highest st))) as [|_]; [lia|].
@@ -46,14 +46,14 @@ Proof.
   rewrite (i_last _ _ _ I), <- Eh. rewrite N.eqb_refl.
   eexists. split; [reflexivity|]. split; [|proj_simpl; auto].
   (* the specification does not move either *)
-  assert (Ef : f_fin f h = mkF (f_set f) (f_chain f ++ []) (f_all f)).
+  assert (Ef : f_fin f h = mkF (f_set f) (f_chain f ++ []) (f_all f) (f_setid f)).
   { unfold f_fin, f_admissible. unfold s_known at 1. rewrite <- Eh, N.eqb_refl. cbn [orb].
     unfold s_fin. rewrite <- Eh, N.eqb_refl. cbn [fst].
     unfold f_new_links. rewrite <- Eh, s_path_upto.
     assert (D : s_desc (f_set f) h h = true).
     { unfold s_desc. destruct (length _); simpl; rewrite N.eqb_refl; reflexivity. }
     rewrite D. unfold s_chain. destruct (length (s_blocks (f_set f))); simpl; rewrite N.eqb_refl; reflexivity. }
-  rewrite Ef, app_nil_r. destruct f as [fs fc fa]. proj_simpl.
+  rewrite Ef, app_nil_r. destruct f as [fs fc fa fsid]. proj_simpl.
   constructor; proj_simpl; try apply I.
   all: try exact Eh.
   all: try (exists i0; rewrite <- Eh; auto; fail).
@@ -197,7 +197,7 @@ Section FinStep.
   Qed.
 
   Theorem fin_step :
-    exists st', set_finalised st h round setid = (st', Ok tt) /\ inv g st' (f_fin f h).
+    exists st', set_finalised_late st h round setid = (st', Ok tt) /\ inv g st' (f_fin f h).
   Proof.
     destruct fs_nodup_sub as (NDs & Hrs). destruct (i_head _ _ _ I) as (i0 & Hh0 & Hf0).
     fold s in Hh0, Hf0. rewrite fs_root in Hh0, Hf0.
